@@ -442,7 +442,7 @@ func init() {
 	var subs []core.Sub
 	for _, cd := range gen.Codecs {
 		codec := cd
-		subs = append(subs, core.Sub{Name: "truncate-" + codec, N: core.Const(8, 48), Shard: 2, TimeoutS: 3000, Run: func(c *core.Ctx) { runTruncate(c, codec) }})
+		subs = append(subs, core.Sub{Name: "truncate-" + codec, N: core.Const(8, 24), Shard: 2, TimeoutS: 3000, Run: func(c *core.Ctx) { runTruncate(c, codec) }})
 	}
 	for _, cd := range gen.Codecs {
 		codec := cd
